@@ -100,9 +100,50 @@ theorem decideTo_missing (hc : cfg.Plain c) (t : Tree) (k : Nat) (fp tpar : List
   rw [findFullPath_pathStr t (tpar ++ [l]) (by simpa using hg), hD]
   simp only [Option.map_none, decideMissing, hc.tsep, addPath_parent t k tpar l hg, hgrow]
 
-/-- plain shift to a destination that does not exist yet -/
+theorem mem_paths_of_flat_filter {p q : List Str} {t t2 : Tree}
+    (h : flat t2 = (flat t).filter (fun e => !under p e)) :
+    q ∈ paths t2 ↔ q ∈ paths t ∧ p.isPrefixOf q = false := by
+  unfold paths
+  rw [h]
+  constructor
+  · intro h
+    obtain ⟨e, he, rfl⟩ := List.mem_map.1 h
+    obtain ⟨h1, h2⟩ := List.mem_filter.1 he
+    exact ⟨List.mem_map.2 ⟨e, h1, rfl⟩, by simpa [under] using h2⟩
+  · rintro ⟨h, h2⟩
+    obtain ⟨e, he, rfl⟩ := List.mem_map.1 h
+    exact List.mem_map.2 ⟨e, List.mem_filter.2 ⟨he, by simpa [under] using h2⟩, rfl⟩
+
+theorem sibUnique_setKids_nil (X : Tree) : SibUnique (setKids [] X) := by
+  cases X; simp [setKids, sibUnique_node]
+
+theorem flat_setKids_nil (X : Tree) : flat (setKids [] X) = [([], X.id, X.attrs)] := by
+  cases X; simp [setKids, flat_node]
+
+/-- the node that is attached: the from-node, or the bare from-node with `delete_children` -/
+def stripIf (b : Bool) (X : Tree) : Tree := if b then setKids [] X else X
+
+theorem stripIf_name (b X) : (stripIf b X).name = X.name := by
+  unfold stripIf; split <;> simp
+theorem sibUnique_stripIf {b X} (h : SibUnique X) : SibUnique (stripIf b X) := by
+  unfold stripIf; split
+  · exact sibUnique_setKids_nil X
+  · exact h
+theorem flat_stripIf_congr {b X Y} (h : flat X = flat Y) : flat (stripIf b X) = flat (stripIf b Y) := by
+  unfold stripIf; split
+  · rw [flat_setKids_nil, flat_setKids_nil]
+    rw [flat_eq X, flat_eq Y] at h
+    injection h with h1 _
+    rw [h1]
+  · exact h
+theorem mem_flat_stripIf {b X e} (h : e ∈ flat (stripIf b X)) : e ∈ flat X := by
+  unfold stripIf at h; split at h
+  · rw [flat_setKids_nil] at h; rw [flat_eq]; simp at h; simp [h]
+  · exact h
+
+/-- plain shift (with or without `delete_children`) to a destination that does not exist yet -/
 theorem shift_core (hc : cfg.Plain c) (hcp : cfg.copy = false) (hmc : cfg.mergeChildren = false)
-    (hml : cfg.mergeLeaves = false) (hdc : cfg.deleteChildren = false)
+    (hml : cfg.mergeLeaves = false)
     (t : Tree) (k : Nat) (fpar tpar : List Str) (l : Str) (F : Tree)
     (hu : SibUnique t) (hk : ∀ e ∈ flat t, e.2.1 < k)
     (hgf : GoodNames c (t.name :: fpar ++ [l])) (hgt : GoodNames c (t.name :: tpar ++ [l]))
@@ -111,7 +152,8 @@ theorem shift_core (hc : cfg.Plain c) (hcp : cfg.copy = false) (hmc : cfg.mergeC
     ∃ t' k', copyOrShift cfg (st0 t k)
         [(pathStr c t.name (fpar ++ [l]), some (pathStr c t.name (tpar ++ [l])))] = .ok (st0 t' k') ∧
       k ≤ k' ∧ SibUnique t' ∧
-      (flat t').filter (under (tpar ++ [l])) = (flat F).map (rebase (tpar ++ [l])) ∧
+      (flat t').filter (under (tpar ++ [l]))
+        = (flat (stripIf cfg.deleteChildren F)).map (rebase (tpar ++ [l])) ∧
       (flat t').filter (fun e => decide (e.2.1 < k) && !under (tpar ++ [l]) e)
         = (flat t).filter (fun e => !under (fpar ++ [l]) e) ∧
       (∀ e ∈ flat t', ¬ e.2.1 < k → e.1.isPrefixOf tpar = true ∧ e.2.1 < k' ∧ e.2.2 = []) ∧
@@ -125,22 +167,42 @@ theorem shift_core (hc : cfg.Plain c) (hcp : cfg.copy = false) (hmc : cfg.mergeC
   have hFF : flat F1 = flat F :=
     flat_sub_grow hu hsu1 hold (fun e he h => (hnew e he h).1) hin hF hF1
   have hF1n : F1.name = l := getRel_name hF1
-  -- detach it
-  have hsu2 : SibUnique (removeAt (fpar ++ [l]) t1) := hsu1.removeAt
-  have hflat2 := flat_removeAt hfpne hsu1
-  have htpar2 : tpar ∈ paths (removeAt (fpar ++ [l]) t1) :=
-    (mem_paths_removeAt hfpne hsu1).2 ⟨(hpaths _).2 (Or.inr (by simp [List.isPrefixOf_iff_prefix])), hin⟩
+  -- `del from_node.children` (when asked), then detach
+  obtain ⟨T0, hT0, hsu0, hflat0⟩ : ∃ T0,
+      (if (true && cfg.deleteChildren) = true then modifyAt (fpar ++ [l]) (setKids []) t1 else t1) = T0 ∧
+      SibUnique T0 ∧
+      (flat T0).filter (fun e => !under (fpar ++ [l]) e)
+        = (flat t1).filter (fun e => !under (fpar ++ [l]) e) := by
+    cases hdc : cfg.deleteChildren with
+    | false => exact ⟨t1, by simp, hsu1, rfl⟩
+    | true =>
+      exact ⟨_, by simp, hsu1.modifyAt hF1 (setKids_name _ _) (sibUnique_setKids_nil F1),
+        flat_modifyAt_not_under hF1 (setKids_name _ _)⟩
+  have hsu2 : SibUnique (removeAt (fpar ++ [l]) T0) := hsu0.removeAt
+  have hflat2 : flat (removeAt (fpar ++ [l]) T0) = (flat t1).filter (fun e => !under (fpar ++ [l]) e) := by
+    rw [flat_removeAt hfpne hsu0, hflat0]
+  have hmem2 : ∀ q, q ∈ paths (removeAt (fpar ++ [l]) T0) ↔ q ∈ paths t1 ∧ (fpar ++ [l]).isPrefixOf q = false :=
+    fun q => mem_paths_of_flat_filter hflat2
+  have htpar2 : tpar ∈ paths (removeAt (fpar ++ [l]) T0) :=
+    (hmem2 _).2 ⟨(hpaths _).2 (Or.inr (by simp [List.isPrefixOf_iff_prefix])), hin⟩
   obtain ⟨P2, hP2⟩ := Option.isSome_iff_exists.1 ((mem_paths_iff hsu2).1 htpar2)
-  have hnewkid : ∀ y ∈ P2.children, y.name ≠ F1.name := by
+  have hFmn : (stripIf cfg.deleteChildren F1).name = l := by rw [stripIf_name, hF1n]
+  have hnewkid : ∀ y ∈ P2.children, y.name ≠ (stripIf cfg.deleteChildren F1).name := by
     intro y hy hyn
     have h1 := child_mem_paths hsu2 hP2 hy
-    rw [hyn, hF1n] at h1
-    have h2 := ((mem_paths_removeAt hfpne hsu1).1 h1).1
+    rw [hyn, hFmn] at h1
+    have h2 := ((hmem2 _).1 h1).1
     rcases (hpaths _).1 h2 with h3 | h3
     · rw [mem_paths_iff hu, hD] at h3; cases h3
     · rw [not_prefix_of_longer] at h3; cases h3
-  refine ⟨modifyAt tpar (appendKid F1) (removeAt (fpar ++ [l]) t1), k1, ?_, hkk,
-    hsu2.appendAt hP2 (hsu1.sub hF1) hnewkid, ?_, ?_, ?_, ?_⟩
+  have hFmu : SibUnique (stripIf cfg.deleteChildren F1) := sibUnique_stripIf (hsu1.sub hF1)
+  have hFmf : flat (stripIf cfg.deleteChildren F1) = flat (stripIf cfg.deleteChildren F) :=
+    flat_stripIf_congr hFF
+  have h1 := flat_appendAt_old hP2 hnewkid hsu2
+  have h2 := flat_appendAt_new hP2 hnewkid hsu2 hFmu
+  rw [hFmn] at h1 h2
+  refine ⟨modifyAt tpar (appendKid (stripIf cfg.deleteChildren F1)) (removeAt (fpar ++ [l]) T0), k1, ?_, hkk,
+    hsu2.appendAt hP2 hFmu hnewkid, ?_, ?_, ?_, ?_⟩
   · -- the call computes this tree
     have hgf' : GoodNames c (t.name :: (fpar ++ [l])) := by simpa using hgf
     have hgt' : GoodNames c (t.name :: (tpar ++ [l])) := by simpa using hgt
@@ -151,15 +213,13 @@ theorem shift_core (hc : cfg.Plain c) (hcp : cfg.copy = false) (hmc : cfg.mergeC
     simp only [st0_tree, hF, Option.map_some] at hr
     simp only [hr, decideTo_missing hc t k (fpar ++ [l]) tpar l hgt hD hgrow, attach, hmc,
       Option.isNone_none, if_true, hF1, Option.getD_some, Option.isSome_some, hcp, Bool.not_false,
-      Bool.and_true, hml, hdc, attachNode, loops, hin, Bool.and_false, Bool.false_eq_true,
-      if_false, attachOne_ok hP2 hnewkid]
-  · -- the moved subtree
-    have := flat_appendAt_new hP2 hnewkid hsu2 (hsu1.sub hF1)
-    rw [hF1n, hFF] at this
-    exact this
+      Bool.and_true, hml, attachNode, loops, hin, Bool.and_false, Bool.false_eq_true,
+      if_false, hT0]
+    have : (if cfg.deleteChildren = true then setKids [] F1 else F1) = stripIf cfg.deleteChildren F1 := rfl
+    rw [this, attachOne_ok hP2 hnewkid]
+  · -- the moved node
+    rw [h2, hFmf]
   · -- the frame
-    have h1 := flat_appendAt_old hP2 hnewkid hsu2
-    rw [hF1n] at h1
     have : ∀ l' : List Entry,
         l'.filter (fun e => decide (e.2.1 < k) && !under (tpar ++ [l]) e)
           = (l'.filter (fun e => !under (tpar ++ [l]) e)).filter (fun e => decide (e.2.1 < k)) := by
@@ -171,32 +231,28 @@ theorem shift_core (hc : cfg.Plain c) (hcp : cfg.copy = false) (hmc : cfg.mergeC
     cases decide (e.2.1 < k) <;> simp
   · -- the new intermediate nodes
     intro e he hlt
-    have h1 := flat_appendAt_old hP2 hnewkid hsu2
-    have h2 := flat_appendAt_new hP2 hnewkid hsu2 (hsu1.sub hF1)
-    rw [hF1n] at h1 h2
     cases hue : under (tpar ++ [l]) e with
     | true =>
       exfalso
-      have : e ∈ (flat (modifyAt tpar (appendKid F1) (removeAt (fpar ++ [l]) t1))).filter
-          (under (tpar ++ [l])) := List.mem_filter.2 ⟨he, hue⟩
-      rw [h2, hFF] at this
+      have : e ∈ (flat (modifyAt tpar (appendKid (stripIf cfg.deleteChildren F1))
+          (removeAt (fpar ++ [l]) T0))).filter (under (tpar ++ [l])) := List.mem_filter.2 ⟨he, hue⟩
+      rw [h2, hFmf] at this
       obtain ⟨e0, he0, rfl⟩ := List.mem_map.1 this
       have hmem : rebase (fpar ++ [l]) e0 ∈ (flat F).map (rebase (fpar ++ [l])) :=
-        List.mem_map.2 ⟨e0, he0, rfl⟩
+        List.mem_map.2 ⟨e0, mem_flat_stripIf he0, rfl⟩
       rw [← flat_filter_under hF hu] at hmem
       exact hlt (hk (rebase (fpar ++ [l]) e0) (List.mem_filter.1 hmem).1)
     | false =>
-      have : e ∈ (flat (modifyAt tpar (appendKid F1) (removeAt (fpar ++ [l]) t1))).filter
-          (fun e => !under (tpar ++ [l]) e) := List.mem_filter.2 ⟨he, by simp [hue]⟩
+      have : e ∈ (flat (modifyAt tpar (appendKid (stripIf cfg.deleteChildren F1))
+          (removeAt (fpar ++ [l]) T0))).filter (fun e => !under (tpar ++ [l]) e) :=
+        List.mem_filter.2 ⟨he, by simp [hue]⟩
       rw [h1, hflat2] at this
       exact hnew e (List.mem_filter.1 this).1 hlt
   · -- every prefix of the destination's parent path exists
     intro q hq
-    have h1 := flat_appendAt_old hP2 hnewkid hsu2
-    rw [hF1n] at h1
     have hq1 : q ∈ paths t1 := (hpaths q).2 (Or.inr hq)
-    have hq2 : q ∈ paths (removeAt (fpar ++ [l]) t1) := by
-      refine (mem_paths_removeAt hfpne hsu1).2 ⟨hq1, ?_⟩
+    have hq2 : q ∈ paths (removeAt (fpar ++ [l]) T0) := by
+      refine (hmem2 q).2 ⟨hq1, ?_⟩
       cases h : (fpar ++ [l]).isPrefixOf q with
       | false => rfl
       | true => rw [prefix_trans' h hq] at hin; cases hin
@@ -267,9 +323,19 @@ theorem append_fresh_facts {t t1 X : Tree} {k k1 : Nat} {tpar : List Str} {l : S
     rw [← h1] at he
     exact List.mem_map.2 ⟨e, (List.mem_filter.1 he).1, rfl⟩
 
-/-- plain copy (same tree or tree-to-tree) to a destination that does not exist yet -/
+theorem shape_stripIf_congr {b X Y} (h : shape (flat X) = shape (flat Y)) :
+    shape (flat (stripIf b X)) = shape (flat (stripIf b Y)) := by
+  unfold stripIf; split
+  · rw [flat_setKids_nil, flat_setKids_nil]
+    rw [flat_eq X, flat_eq Y] at h
+    simp only [shape, List.map_cons, List.cons.injEq, Prod.mk.injEq, true_and] at h
+    simp [shape, h.1]
+  · exact h
+
+/-- plain copy (same tree or tree-to-tree, with or without `delete_children`) to a destination
+that does not exist yet -/
 theorem copy_core (hc : cfg.Plain c) (hcp : cfg.copy = true) (hmc : cfg.mergeChildren = false)
-    (hml : cfg.mergeLeaves = false) (hdc : cfg.deleteChildren = false)
+    (hml : cfg.mergeLeaves = false)
     (src : Option Tree) (t : Tree) (k : Nat) (fpar tpar : List Str) (l : Str) (F : Tree)
     (hu : SibUnique t) (hus : SibUnique (src.getD t)) (hk : ∀ e ∈ flat t, e.2.1 < k)
     (hgf : GoodNames c ((src.getD t).name :: fpar ++ [l])) (hgt : GoodNames c (t.name :: tpar ++ [l]))
@@ -280,7 +346,7 @@ theorem copy_core (hc : cfg.Plain c) (hcp : cfg.copy = true) (hmc : cfg.mergeChi
           = .ok ⟨src, t', k'⟩ ∧
       k ≤ k' ∧ SibUnique t' ∧
       shape ((flat t').filter (under (tpar ++ [l])))
-        = (shape (flat F)).map (fun x => (tpar ++ [l] ++ x.1, x.2)) ∧
+        = (shape (flat (stripIf cfg.deleteChildren F))).map (fun x => (tpar ++ [l] ++ x.1, x.2)) ∧
       (∀ e ∈ (flat t').filter (under (tpar ++ [l])), k ≤ e.2.1 ∧ e.2.1 < k') ∧
       (flat t').filter (fun e => decide (e.2.1 < k)) = flat t ∧
       (∀ e ∈ flat t', ¬ e.2.1 < k → under (tpar ++ [l]) e = false →
@@ -312,12 +378,13 @@ theorem copy_core (hc : cfg.Plain c) (hcp : cfg.copy = true) (hmc : cfg.mergeChi
       | none => rw [hg] at hcur; simp at hcur; rw [← hcur]; exact h1
       | some Y => rw [hg] at hcur; simp at hcur; rw [← hcur]; exact getRel_name hg
   obtain ⟨r1, r2, r3, r4, r5⟩ := relabel_ok F1 k1
-  have hXid : ∀ e ∈ flat (relabel k1 F1).1, k1 ≤ e.2.1 := fun e he => (r4 e he).1
+  have hXid : ∀ e ∈ flat (stripIf cfg.deleteChildren (relabel k1 F1).1), k1 ≤ e.2.1 :=
+    fun e he => (r4 e (mem_flat_stripIf he)).1
   obtain ⟨P1, hP1, hnewkid, hsu', hund, hfr, hmid, hpre⟩ :=
-    append_fresh_facts (X := (relabel k1 F1).1) hu hk hsu1 hkk hold hnew hpaths hD (r5 hF1u)
-      (by rw [r1, hF1n]) hXid
-  refine ⟨modifyAt tpar (appendKid (relabel k1 F1).1) t1, (relabel k1 F1).2, ?_, by omega, hsu', ?_, ?_,
-    hfr, ?_, hpre⟩
+    append_fresh_facts (X := stripIf cfg.deleteChildren (relabel k1 F1).1) hu hk hsu1 hkk hold hnew hpaths hD
+      (sibUnique_stripIf (r5 hF1u)) (by rw [stripIf_name, r1, hF1n]) hXid
+  refine ⟨modifyAt tpar (appendKid (stripIf cfg.deleteChildren (relabel k1 F1).1)) t1, (relabel k1 F1).2, ?_,
+    by omega, hsu', ?_, ?_, hfr, ?_, hpre⟩
   · have hgf' : GoodNames c ((src.getD t).name :: (fpar ++ [l])) := by simpa using hgf
     have hgt' : GoodNames c (t.name :: (tpar ++ [l])) := by simpa using hgt
     have hv : valid cfg ⟨src, t, k⟩
@@ -345,13 +412,17 @@ theorem copy_core (hc : cfg.Plain c) (hcp : cfg.copy = true) (hmc : cfg.mergeChi
       rw [findFullPath_pathStr t (tpar ++ [l]) hgt', hD]
       simp only [Option.map_none, decideMissing, hc.tsep, addPath_parent t k tpar l hgt, hgrow]
     simp only [hr, hdec, attach, hmc, hcur, hcp, Bool.not_true, Bool.and_false, if_true,
-      Bool.false_eq_true, if_false, hml, hdc, attachNode, loops, Bool.false_and,
-      attachOne_ok hP1 hnewkid]
-  · rw [hund, shape_map_rebase, r3, hFF]
+      Bool.false_eq_true, if_false, hml, attachNode, loops, Bool.false_and]
+    have : (if cfg.deleteChildren = true then setKids [] (relabel k1 F1).1 else (relabel k1 F1).1)
+        = stripIf cfg.deleteChildren (relabel k1 F1).1 := rfl
+    rw [this, attachOne_ok hP1 hnewkid]
+  · rw [hund, shape_map_rebase]
+    have : shape (flat (relabel k1 F1).1) = shape (flat F) := by rw [r3, hFF]
+    rw [shape_stripIf_congr this]
   · intro e he
     rw [hund] at he
     obtain ⟨e0, he0, rfl⟩ := List.mem_map.1 he
-    have := r4 e0 he0
+    have := r4 e0 (mem_flat_stripIf he0)
     simp [rebase]; omega
   · intro e he hlt hue
     obtain ⟨h1, h2, h3⟩ := hmid e he hlt hue
@@ -364,4 +435,148 @@ namespace Modify
 instance (t : Tree) : Decidable (SibUnique t) := by unfold SibUnique; infer_instance
 instance (c : Char) (n : Str) : Decidable (GoodName c n) := by unfold GoodName; infer_instance
 instance (c : Char) (ns : List Str) : Decidable (GoodNames c ns) := by unfold GoodNames; infer_instance
+end Modify
+
+namespace Modify
+
+variable {cfg : Cfg} {c : Char}
+
+/-- `del from_node.children` (when asked) and `from_node.parent = to_node`, for a from-node that
+sits in the tree `T1` at `fp` and an existing new parent `tpar` that has no child called `l` -/
+theorem move_facts (dc : Bool) {T1 F1 : Tree} {fp tpar : List Str} {l : Str} (hfpne : fp ≠ [])
+    (hsu1 : SibUnique T1) (hF1 : getRel fp T1 = some F1) (hF1n : F1.name = l)
+    (htpar : tpar ∈ paths T1) (hin : fp.isPrefixOf tpar = false) (hfree : tpar ++ [l] ∉ paths T1) :
+    ∃ t', attachNode true fp (stripIf dc F1)
+        (if (true && dc) = true then modifyAt fp (setKids []) T1 else T1) (some tpar) = .ok t' ∧
+      SibUnique t' ∧
+      (flat t').filter (under (tpar ++ [l])) = (flat (stripIf dc F1)).map (rebase (tpar ++ [l])) ∧
+      (flat t').filter (fun e => !under (tpar ++ [l]) e) = (flat T1).filter (fun e => !under fp e) := by
+  obtain ⟨T0, hT0, hsu0, hflat0⟩ : ∃ T0,
+      (if (true && dc) = true then modifyAt fp (setKids []) T1 else T1) = T0 ∧ SibUnique T0 ∧
+      (flat T0).filter (fun e => !under fp e) = (flat T1).filter (fun e => !under fp e) := by
+    cases dc with
+    | false => exact ⟨T1, by simp, hsu1, rfl⟩
+    | true =>
+      exact ⟨_, by simp, hsu1.modifyAt hF1 (setKids_name _ _) (sibUnique_setKids_nil F1),
+        flat_modifyAt_not_under hF1 (setKids_name _ _)⟩
+  have hsu2 : SibUnique (removeAt fp T0) := hsu0.removeAt
+  have hflat2 : flat (removeAt fp T0) = (flat T1).filter (fun e => !under fp e) := by
+    rw [flat_removeAt hfpne hsu0, hflat0]
+  have hmem2 : ∀ q, q ∈ paths (removeAt fp T0) ↔ q ∈ paths T1 ∧ fp.isPrefixOf q = false :=
+    fun q => mem_paths_of_flat_filter hflat2
+  obtain ⟨P2, hP2⟩ := Option.isSome_iff_exists.1 ((mem_paths_iff hsu2).1 ((hmem2 _).2 ⟨htpar, hin⟩))
+  have hFmn : (stripIf dc F1).name = l := by rw [stripIf_name, hF1n]
+  have hnewkid : ∀ y ∈ P2.children, y.name ≠ (stripIf dc F1).name := by
+    intro y hy hyn
+    have h1 := child_mem_paths hsu2 hP2 hy
+    rw [hyn, hFmn] at h1
+    exact hfree ((hmem2 _).1 h1).1
+  have hFmu : SibUnique (stripIf dc F1) := sibUnique_stripIf (hsu1.sub hF1)
+  have h1 := flat_appendAt_old hP2 hnewkid hsu2
+  have h2 := flat_appendAt_new hP2 hnewkid hsu2 hFmu
+  rw [hFmn] at h1 h2
+  refine ⟨modifyAt tpar (appendKid (stripIf dc F1)) (removeAt fp T0), ?_,
+    hsu2.appendAt hP2 hFmu hnewkid, h2, by rw [h1, hflat2]⟩
+  simp only [attachNode, loops, hin, Bool.and_false, Bool.false_eq_true, if_false, if_true, hT0,
+    attachOne_ok hP2 hnewkid]
+
+/-- two addresses neither of which is a prefix of the other have no common entry below them -/
+theorem not_under_both {p q : List Str} (h1 : p.isPrefixOf q = false) (h2 : q.isPrefixOf p = false)
+    (e : Entry) (hp : under p e = true) : under q e = false := by
+  cases hq : under q e with
+  | false => rfl
+  | true =>
+    obtain ⟨r1, hr1⟩ := isPrefixOf_iff.1 hp
+    obtain ⟨r2, hr2⟩ := isPrefixOf_iff.1 hq
+    rcases List.prefix_or_prefix_of_prefix (l₃ := e.1) ⟨r1, hr1.symm⟩ ⟨r2, hr2.symm⟩ with h | h
+    · rw [List.isPrefixOf_iff_prefix.2 h] at h1; cases h1
+    · rw [List.isPrefixOf_iff_prefix.2 h] at h2; cases h2
+
+/-- shift onto an existing destination with `overriding=True` (neither node inside the other) -/
+theorem over_core (hc : cfg.Plain c) (hcp : cfg.copy = false) (hmc : cfg.mergeChildren = false)
+    (hml : cfg.mergeLeaves = false) (hov : cfg.overriding = true)
+    (t : Tree) (k : Nat) (fpar tpar : List Str) (l : Str) (F D : Tree)
+    (hu : SibUnique t)
+    (hgf : GoodNames c (t.name :: fpar ++ [l])) (hgt : GoodNames c (t.name :: tpar ++ [l]))
+    (hF : getRel (fpar ++ [l]) t = some F) (hD : getRel (tpar ++ [l]) t = some D)
+    (h1 : (fpar ++ [l]).isPrefixOf (tpar ++ [l]) = false)
+    (h2 : (tpar ++ [l]).isPrefixOf (fpar ++ [l]) = false) :
+    ∃ t', copyOrShift cfg (st0 t k)
+        [(pathStr c t.name (fpar ++ [l]), some (pathStr c t.name (tpar ++ [l])))] = .ok (st0 t' k) ∧
+      SibUnique t' ∧
+      (flat t').filter (under (tpar ++ [l]))
+        = (flat (stripIf cfg.deleteChildren F)).map (rebase (tpar ++ [l])) ∧
+      (flat t').filter (fun e => !under (tpar ++ [l]) e)
+        = (flat t).filter (fun e => !under (tpar ++ [l]) e && !under (fpar ++ [l]) e) := by
+  have hfpne : fpar ++ [l] ≠ [] := by simp
+  have htpne : tpar ++ [l] ≠ [] := by simp
+  -- the old destination is detached
+  have hsu1 : SibUnique (removeAt (tpar ++ [l]) t) := hu.removeAt
+  have hflat1 := flat_removeAt htpne hu
+  have hmem1 : ∀ q, q ∈ paths (removeAt (tpar ++ [l]) t) ↔ q ∈ paths t ∧ (tpar ++ [l]).isPrefixOf q = false :=
+    fun q => mem_paths_of_flat_filter hflat1
+  have hfp1 : fpar ++ [l] ∈ paths (removeAt (tpar ++ [l]) t) :=
+    (hmem1 _).2 ⟨(mem_paths_iff hu).2 (by rw [hF]; rfl), h2⟩
+  obtain ⟨F1, hF1⟩ := Option.isSome_iff_exists.1 ((mem_paths_iff hsu1).1 hfp1)
+  have hFF : flat F1 = flat F := by
+    have a1 := flat_filter_under hF hu
+    have a2 := flat_filter_under hF1 hsu1
+    rw [hflat1, List.filter_filter] at a2
+    have : (flat t).filter (fun e => under (fpar ++ [l]) e && !under (tpar ++ [l]) e)
+        = (flat t).filter (under (fpar ++ [l])) := by
+      apply List.filter_congr
+      intro e _
+      cases hue : under (fpar ++ [l]) e with
+      | false => rfl
+      | true => simp [not_under_both h1 h2 e hue]
+    rw [this, a1] at a2
+    exact ((List.map_inj_right (fun x y h => rebase_injective _ h)).1 a2).symm
+  have htpar : tpar ∈ paths (removeAt (tpar ++ [l]) t) := by
+    refine (hmem1 _).2 ⟨?_, not_prefix_of_longer _ _⟩
+    exact prefix_mem_paths hu ((mem_paths_iff hu).2 (by rw [hD]; rfl))
+  have hin : (fpar ++ [l]).isPrefixOf tpar = false := by
+    cases h : (fpar ++ [l]).isPrefixOf tpar with
+    | false => rfl
+    | true =>
+      have : (fpar ++ [l]).isPrefixOf (tpar ++ [l]) = true := by
+        rw [List.isPrefixOf_iff_prefix] at h ⊢
+        exact h.trans (List.prefix_append _ _)
+      rw [this] at h1; cases h1
+  have hfree : tpar ++ [l] ∉ paths (removeAt (tpar ++ [l]) t) := by
+    intro hmem
+    have := ((hmem1 _).1 hmem).2
+    rw [List.isPrefixOf_iff_prefix.2 (List.prefix_refl _)] at this; cases this
+  obtain ⟨t', hatt, hsu', hmoved, hrest⟩ :=
+    move_facts cfg.deleteChildren hfpne hsu1 hF1 (getRel_name hF1) htpar hin hfree
+  refine ⟨t', ?_, hsu', ?_, ?_⟩
+  · have hgf' : GoodNames c (t.name :: (fpar ++ [l])) := by simpa using hgf
+    have hgt' : GoodNames c (t.name :: (tpar ++ [l])) := by simpa using hgt
+    rw [copyOrShift_single _ _ (valid_move hc t k fpar tpar l (by simp [hmc]) hgf hgt)]
+    simp only [norm, normFrom_pathStr hc _ _ hgf', normTo_pathStr hc _ _ hgt']
+    unfold step
+    have hr := resolveFrom_pathStr hc (st0 t k) (fpar ++ [l]) (by simpa using hgf')
+    simp only [st0_tree, hF, Option.map_some] at hr
+    have hne : (fpar ++ [l] == tpar ++ [l]) = false := by
+      cases h : (fpar ++ [l] == tpar ++ [l]) with
+      | false => rfl
+      | true =>
+        have : fpar ++ [l] = tpar ++ [l] := by simpa using h
+        rw [this, List.isPrefixOf_iff_prefix.2 (List.prefix_refl _)] at h1; cases h1
+    have hdec : decideTo cfg (st0 t k) (fpar ++ [l]) (some (pathStr c t.name (tpar ++ [l])))
+        = .ok ⟨removeAt (tpar ++ [l]) t, k, some tpar, false⟩ := by
+      unfold decideTo
+      simp only [if_neg (pathStr_ne_nil (c := c) t.name (tpar ++ [l])), hc.tsep]
+      rw [findFullPath_pathStr t (tpar ++ [l]) hgt', hD]
+      simp only [Option.map_some, decideExisting, hne, Bool.and_false, Bool.false_eq_true, if_false, hmc,
+        hml, hov, Bool.not_true, parentOf, htpne, List.dropLast_concat]
+    simp only [hr, hdec, attach, Option.isNone_none, if_true, hF1, Option.getD_some,
+      Option.isSome_some, hcp, Bool.not_false, Bool.and_true, hml, Bool.false_eq_true, if_false]
+    have : (if cfg.deleteChildren = true then setKids [] F1 else F1) = stripIf cfg.deleteChildren F1 := rfl
+    rw [this, hatt]
+  · rw [hmoved, flat_stripIf_congr hFF]
+  · rw [hrest, hflat1, List.filter_filter]
+    apply List.filter_congr
+    intro e _
+    cases under (tpar ++ [l]) e <;> cases under (fpar ++ [l]) e <;> rfl
+
 end Modify
